@@ -60,15 +60,38 @@ class IndexBag:
         self.n, self.support = n, support
 
     def __array_function__(self, func, types, args, kwargs):
-        if func is np.sort:
-            _used("np.sort of an index multiset keeps its support")
-            return self
-        if func is np.delete:
-            return m_delete(*args, **kwargs)
-        raise EngineLimit(f"numpy function {getattr(func, '__name__', func)} on an index multiset")
+        return indexset_function(func, args, kwargs)
 
     def __hash__(self):
         return id(self)
+
+
+def indexset_function(func, args, kwargs):
+    """numpy functions applied to index sets / index multisets (the __array_function__ protocol of IndexSet and IndexBag)"""
+    if func is np.sort:
+        _used("np.sort of an index multiset keeps its support")
+        a = args[0]
+        return a if isinstance(a, IndexBag) else IndexBag(a.n, a.mask)
+    if func is np.delete:
+        return m_delete(*args, **kwargs)
+    if func in (np.concatenate, np.hstack):
+        if kwargs.get("axis", 0) not in (0, None) or len(args) > 1 and args[1] not in (0, None):
+            raise EngineLimit("concatenation of index sets along another axis")
+        return _union(tuple(args[0]), func.__name__)
+    raise EngineLimit(f"numpy function {getattr(func, '__name__', func)} on an index multiset")
+
+
+def _union(items, what):
+    if not all(isinstance(x, (IndexSet, IndexBag)) for x in items):
+        raise EngineLimit(f"np.{what} mixing index sets and other arrays")
+    _used("np.r_[idx1, idx2, ...] / np.concatenate / np.hstack of index sets: a multiset whose support is the union of the supports")
+    n = items[0].n
+    sups = []
+    for x in items:
+        if not _same(x.n, n):
+            raise EngineLimit(f"np.{what} of index sets over different base lengths")
+        sups.append(x.mask if isinstance(x, IndexSet) else x.support)
+    return IndexBag(n, lambda i: z3.Or(*[s(i) for s in sups]))
 
 
 class _R:
@@ -81,16 +104,7 @@ class _R:
         items = key if isinstance(key, tuple) else (key,)
         if not any(isinstance(x, (IndexSet, IndexBag)) for x in items):
             return self.orig[key]
-        if not all(isinstance(x, (IndexSet, IndexBag)) for x in items):
-            raise EngineLimit("np.r_ mixing index sets and other arrays")
-        _used("np.r_[idx1, idx2, ...] of index sets: a multiset whose support is the union of the supports")
-        n = items[0].n
-        sups = []
-        for x in items:
-            if not _same(x.n, n):
-                raise EngineLimit("np.r_ of index sets over different base lengths")
-            sups.append(x.mask if isinstance(x, IndexSet) else x.support)
-        return IndexBag(n, lambda i: z3.Or(*[s(i) for s in sups]))
+        return _union(items, "r_")
 
 
 def m_delete(arr, obj, axis=None):
@@ -141,7 +155,9 @@ def _coo_full(v, r, c, shape):
             val = z3.ToReal(val)
         return z3.If(z3.And(j >= 0, j < n, rv(j) == i), val, z3.RealVal(0))
 
-    return SymMat(nr, nc, entry, "coo")
+    m = SymMat(nr, nc, entry, "coo")
+    m.stored = v.n  # one stored entry per column 0..n-1 (explicit zeros are kept by the format conversions)
+    return m
 
 
 def m_coo_matrix(orig):
